@@ -470,8 +470,13 @@ type c33Choice struct {
 	Zero bool // torn write whose length made it to disk: the lost tail reads as zeros
 }
 
-// c33ZeroFill adds the zero-filled-tail torn patterns (thorough tier).
-var c33ZeroFill bool
+// c33ZeroFill adds the zero-filled-tail torn patterns: at every tear point
+// (thorough), or only at the middle tear point (c33ZeroFillMid, quick: the
+// middle tear keeps length fields intact, so checksums are what must reject it).
+var (
+	c33ZeroFill    bool
+	c33ZeroFillMid bool
+)
 
 func (c c33Choice) String() string {
 	if c.Torn >= 0 && c.Zero {
@@ -499,7 +504,7 @@ func c33Choices(p []c33Pend) []c33Choice {
 			if t >= 1 && t < n && !seen[t] {
 				seen[t] = true
 				out = append(out, c33Choice{Keep: k, Torn: t})
-				if c33ZeroFill {
+				if c33ZeroFill || (c33ZeroFillMid && t == n/2) {
 					out = append(out, c33Choice{Keep: k, Torn: t, Zero: true})
 				}
 			}
@@ -2753,6 +2758,7 @@ func c33Child() {
 	vs := c33NewViols()
 	thorough := ev.Thorough()
 	c33ZeroFill = thorough
+	c33ZeroFillMid = true
 	curDir := os.Getenv("C33_CURDIR")
 
 	builders := []func(*c33Viols, int) *c33Live{c33WorkloadA}
@@ -2801,7 +2807,7 @@ func c33Child() {
 		wg.Wait()
 	}
 
-	r.Rule("every prefix of the recorded fs-operation log of each workload (crash after operation i, all i) x loss patterns of data written after the last Sync of each file: {all kept, none kept, every proper prefix of the unsynced ops, the last kept write torn at byte 1 / middle / len-1 (thorough: also the same torn writes with the lost tail reading back as zeros up to the full length)}; across files: quick is deviation-bounded (one file deviates, the others all-kept or none-kept), thorough takes the full cartesian product whenever it has <= 600 combinations (else deviation-bounded; counted); directory operations durable in order (the source never syncs directories); thorough adds the variant where a rename not followed by any Sync is lost with all later namespace operations. A state is distinct by content hash of the materialised file system + the set of acknowledged/issued operations at that point; each distinct state is recovered by a fresh real cluster and read back through the protocol; the recovered cluster then acknowledges one produce per partition and one offset commit per group and is crashed again (all acknowledged data was fsynced; unsynced data lost / kept), and a third cluster must show the first recovery's log + the new batches and commits")
+	r.Rule("every prefix of the recorded fs-operation log of each workload (crash after operation i, all i) x loss patterns of data written after the last Sync of each file: {all kept, none kept, every proper prefix of the unsynced ops, the last kept write torn at byte 1 / middle / len-1 (plus torn writes whose size update reached the disk, the lost tail reading back as zeros up to the full length: quick at the middle tear point, thorough at all three)}; across files: quick is deviation-bounded (one file deviates, the others all-kept or none-kept), thorough takes the full cartesian product whenever it has <= 600 combinations (else deviation-bounded; counted); directory operations durable in order (the source never syncs directories); thorough adds the variant where a rename not followed by any Sync is lost with all later namespace operations. A state is distinct by content hash of the materialised file system + the set of acknowledged/issued operations at that point; each distinct state is recovered by a fresh real cluster and read back through the protocol; the recovered cluster then acknowledges one produce per partition and one offset commit per group and is crashed again (all acknowledged data was fsynced; unsynced data lost / kept), and a third cluster must show the first recovery's log + the new batches and commits")
 	r.Assume("the response observed by the client is the acknowledgement; its ack point is the fs-log length when the response arrived (a Sync issued after sending the response but before the client observed it would be missed)",
 		"write/truncate of one file become durable in issue order (prefix loss + one torn write), fsync makes all earlier data operations of that inode durable",
 		"forEachPartition runs partition saves in goroutines: the interleaving of their fs operations in the recorded log is whatever this run produced",
